@@ -62,6 +62,66 @@ def case(item):
     return o
 
 
+def app_stall_sweeps(ck, tier, cap_t):
+    """the application thread arbitrarily slow from any one of its own scheduling points (mutex release included): pacing *inside* the API
+    calls.  Every decision point of the canonical schedule at which the application thread is the one to run gets one execution in which it
+    only runs again when the library cannot make progress without it."""
+    complete = True
+    transitions = 0
+    exe = schedlib.build_encdrv("rel")
+    sweeps = []
+    sw_items = [("never-drain,n=26", {"n": 26, "pat": "n" * 26, "final": "b", "hierarchical_levels": 3, "logical_processors": 1, "recon_enabled": 1}),
+                ]
+    if tier == "thorough":
+        sw_items += [("always-drain,n=9", {"n": 9, "pat": "d" * 9, "final": "b", "hierarchical_levels": 3, "logical_processors": 1, "recon_enabled": 1}),
+                     ("never-drain,n=26,lp=2", {"n": 26, "pat": "n" * 26, "final": "b", "hierarchical_levels": 3, "logical_processors": 2, "recon_enabled": 1}),
+                     ("never-drain,n=26,overlays", {"n": 26, "pat": "n" * 26, "final": "b", "hierarchical_levels": 3, "logical_processors": 1, "recon_enabled": 1, "enable_overlays": 1}),
+                     ("drain-every-3rd,n=17", {"n": 17, "pat": "".join("d" if (i + 1) % 3 == 0 else "n" for i in range(17)), "final": "b", "hierarchical_levels": 3,
+                                               "logical_processors": 1, "recon_enabled": 1})]
+    for sname, extra in sw_items:
+        if time.time() > cap_t - 20:
+            complete = False
+            break
+        a = {"w": 64, "h": 64, "content": "grad", "enc_mode": 8}
+        a.update(extra)
+        argv = ["%s=%s" % kv for kv in a.items()]
+        env = {"VS_UNLOCK_YIELD": "1"}
+        pts = schedlib.app_thread_points(exe, argv, env, timeout=300)
+        st = {"ref": None}
+
+        def sobs(res):
+            o = res.get("out") or {}
+            return (o.get("npk"), o.get("pkt_hash"), o.get("nrc"), o.get("rec_hash"), o.get("completed"))
+
+        def on(res, sname=sname, a=a, st=st):
+            rep = {"args": a, "stalls": res.get("stalls") or [], "sweep": 1}
+            if res["rc"] == 6:
+                raise RuntimeError("DIVERGENCE replaying %s" % sname)
+            if res["timeout"]:
+                res2 = schedlib.run_schedule(exe, ["%s=%s" % kv for kv in a.items()], [], {"VS_UNLOCK_YIELD": "1"}, 1200, stalls=res.get("stalls") or ())
+                if res2["timeout"]:
+                    ck.violation("C27:stalled-app-timeout@%s" % sname, "application thread stalled at %s: session exceeds 300 s and, run alone, 1200 s" % res.get("stalls"), rep)
+                    return
+                res = res2
+            out = res.get("out") or {}
+            if res["rc"] == 3 or out.get("deadlock") or out.get("livelock"):
+                ck.violation("C27:stalled-app-blocks@%s" % sname, "application thread stalled at %s: all threads blocked %s" % (res.get("stalls"), json.dumps(out)[:200]), rep)
+            elif res["rc"] != 0:
+                ck.violation("C27:stalled-app-crash@%s" % sname, "application thread stalled at %s: status %s" % (res.get("stalls"), res["rc"]), rep)
+            elif not res.get("stalls"):
+                st["ref"] = sobs(res)
+            elif st["ref"] is not None and sobs(res) != st["ref"]:
+                ck.violation("C27:output-depends-on-pacing-inside-calls@%s" % sname,
+                             "application thread stalled at its decision point %s yields %s, the canonical schedule yields %s" % (res.get("stalls"), sobs(res), st["ref"]), rep)
+
+        S = schedlib.stall_sweep(exe, argv, on, cap_t, env=env, timeout=300, only_points=pts)
+        sweeps.append({"session": sname, "decision_points": S["points"], "application_thread_points": len(pts), "schedules": S["executions"] - 1, "complete": S["complete"]})
+        transitions += S["transitions"]
+        if not S["complete"]:
+            complete = False
+    return sweeps, transitions, complete
+
+
 def run(tier):
     ck = vlib.Check(PID, tier, "model_checking")
     enc.tools("rel", sched=True)
@@ -81,7 +141,9 @@ def run(tier):
                         g = (ci, n, final, pol)
                         items.append(("c%d,n=%d,final=%s,pol=%d/%s" % (ci, n, final, pol, pat), a, pol))
                         groups.setdefault(g, []).append(len(items) - 1)
+    sweeps, sw_trans, sw_complete = app_stall_sweeps(ck, tier, ck.t0 + 0.45 * ck.budget)
     res, complete = vlib.pmap_deadline(case, items, ck.deadline - 40)
+    complete = complete and sw_complete
     byidx = {}
     for it, o in res:
         byidx[it[0]] = (it, o)
@@ -120,17 +182,26 @@ def run(tier):
         if len(samples) < 4:
             samples.append({"config": cfgs, "n": n, "final": g[2], "policy": g[3], "patterns": len(lst),
                             "completed": sum(1 for _, o in lst if o["status"] == "ok"), "blocked_by_backpressure": sum(1 for _, o in lst if o["status"] in ("blocked", "incomplete"))})
-    cov = {"states": len(res), "transitions": transitions or len(res), "traces_validated_against_impl": completed_patterns,
+    cov = {"states": len(res) + sum(x["schedules"] for x in sweeps), "app_thread_stall_sweeps": sweeps, "transitions": (transitions + sw_trans) or len(res), "traces_validated_against_impl": completed_patterns + sum(x["schedules"] for x in sweeps),
            "samples": samples, "exhaustive": bool(complete), "enumerated": len(items), "status_counts": stat, "distinct_reference_streams": len(hashes),
            "explanation": "every call pattern (all 2^N for N<=5 (6 thorough); <=2 departures from always-drain, k-periodic and only-at-end for larger N) x "
                           "configurations x final drain mode x scheduler priority policy is executed on the real library under the controlled scheduler; "
-                          "'transitions' = scheduling decisions of completed sessions"}
+                          "'transitions' = scheduling decisions of completed sessions; app_thread_stall_sweeps: every schedule in which the application thread "
+                          "is arbitrarily slow from one of its own decision points (mutex releases are scheduling points there)"}
     return ck.finish(cov, ["patterns that stop because of bounded pools while the app is not draining are legitimate back-pressure, not violations",
                            "canonical schedule of two priority policies (schedule independence itself is C04)"])
 
 
 def replay(path):
     d = json.load(open(path))["replay"]
+    if d.get("sweep"):
+        exe = schedlib.build_encdrv("rel")
+        argv = ["%s=%s" % kv for kv in d["args"].items()]
+        ra = schedlib.run_schedule(exe, argv, [], {"VS_UNLOCK_YIELD": "1"}, 600)
+        rb = schedlib.run_schedule(exe, argv, [], {"VS_UNLOCK_YIELD": "1"}, 600, stalls=d["stalls"])
+        f = lambda r: tuple((r.get("out") or {}).get(k) for k in ("npk", "pkt_hash", "nrc", "rec_hash", "completed"))
+        print("canonical:", f(ra), "stalled at", d["stalls"], ":", f(rb), "status", rb["rc"])
+        return 0 if (rb["rc"] == 0 and f(ra) == f(rb)) else 1
     a = case(("x", d["args"], d.get("policy", 0)))
     print(a)
     if d.get("ref_args"):
